@@ -182,7 +182,9 @@ def numpy_level(ctx, rng, pmod, mr, utils):
     cls = str(rng.choice(CLASSES))
     S = make_spec(rng, f, th, cls)
     dt = str(rng.choice(["float64", "float32"]))
-    S = S.astype(dt)
+    # overall energy level: exact power-of-two rescalings (other units, millimetre sea states) leave every decision unchanged
+    lvl = int(rng.choice([0, 0, 0, 0, -8, -16, -24, -30, 10]))
+    S = (S * 2.0 ** lvl).astype(dt)
     smooth = S if rng.random() < 0.7 else (S + np.roll(S, 1, 1) + np.roll(S, -1, 1)) / 3
     kind = str(rng.choice(["ptm1", "ptm2", "ptm3"]))
     ihmax = int(rng.choice([1, 2, 5, 20, 100, 100, 1000]))
@@ -194,8 +196,8 @@ def numpy_level(ctx, rng, pmod, mr, utils):
     req = int(rng.choice([0, 1, max(det - 1, 0), det, det + 1, det + 2, 3])) if rng.random() < 0.9 else None
     if kind == "ptm3" and req == 0:
         req = 1   # zero partitions of a method without a wind-sea slot is an empty request
-    key = "%s|%s|%s|nf=%d|nd=%d|ihmax=%d|req=%s" % (kind, cls, dt, len(f), len(th), ihmax,
-                                                      "none" if req is None else ("lt" if req < det else ("eq" if req == det else "gt")))
+    key = "%s|%s|%s|nf=%d|nd=%d|ihmax=%d|req=%s|level=2^%d" % (kind, cls, dt, len(f), len(th), ihmax,
+                                                      "none" if req is None else ("lt" if req < det else ("eq" if req == det else "gt")), lvl)
     try:
         if kind == "ptm3":
             out = pmod.np_ptm3(S, smooth, f, th, parts=req, ihmax=ihmax)
